@@ -761,7 +761,7 @@ func (s *Session) itemLocs(se *SpecEnv, item string) ([]modLoc, error) {
 				return nil, fmt.Errorf("bad map type %q", tf)
 			}
 			domN, cardN, valN, valS, _ := s.mapHeaps(se.st, mt)
-			out := []modLoc{{heap: domN, sort: arrSort(arrSort(SBool)), whole: true}, {heap: cardN, sort: arrSort(SInt), whole: true}}
+			out := []modLoc{{heap: domN, sort: arrSort(arrSort(SBool)), whole: true}, {heap: cardN, sort: arrSort(SInt), whole: true}, {heap: mapVerName(mt), sort: arrSort(SInt), whole: true}}
 			for i := range valN {
 				out = append(out, modLoc{heap: valN[i], sort: valS[i], whole: true})
 			}
@@ -817,7 +817,7 @@ func (s *Session) itemLocs(se *SpecEnv, item string) ([]modLoc, error) {
 		}(); ok && v.Loc == nil && len(v.L) == 1 && v.Typ != nil {
 			if mt, isMap := v.Typ.Underlying().(*types.Map); isMap {
 				domN, cardN, valN, valS, _ := s.mapHeaps(se.st, mt)
-				out = append(out, modLoc{heap: domN, sort: arrSort(arrSort(SBool)), ref: v.L[0]}, modLoc{heap: cardN, sort: arrSort(SInt), ref: v.L[0]})
+				out = append(out, modLoc{heap: domN, sort: arrSort(arrSort(SBool)), ref: v.L[0]}, modLoc{heap: cardN, sort: arrSort(SInt), ref: v.L[0]}, modLoc{heap: mapVerName(mt), sort: arrSort(SInt), ref: v.L[0]})
 				for i := range valN {
 					out = append(out, modLoc{heap: valN[i], sort: valS[i], ref: v.L[0]})
 				}
@@ -850,7 +850,7 @@ func (s *Session) itemLocs(se *SpecEnv, item string) ([]modLoc, error) {
 			}
 		case *types.Map:
 			domN, cardN, valN, valS, _ := s.mapHeaps(se.st, ut)
-			out = append(out, modLoc{heap: domN, sort: arrSort(arrSort(SBool)), ref: v.L[0]}, modLoc{heap: cardN, sort: arrSort(SInt), ref: v.L[0]})
+			out = append(out, modLoc{heap: domN, sort: arrSort(arrSort(SBool)), ref: v.L[0]}, modLoc{heap: cardN, sort: arrSort(SInt), ref: v.L[0]}, modLoc{heap: mapVerName(ut), sort: arrSort(SInt), ref: v.L[0]})
 			for i := range valN {
 				out = append(out, modLoc{heap: valN[i], sort: valS[i], ref: v.L[0]})
 			}
@@ -1036,6 +1036,7 @@ func (s *Session) addMapHeaps(mods map[string]string, mt *types.Map) {
 	mk := types.TypeString(mt, nil)
 	mods[heapName("M", mk, "dom")] = arrSort(arrSort(SBool))
 	mods[heapName("M", mk, "card")] = arrSort(SInt)
+	mods[heapName("M", mk, "ver")] = arrSort(SInt)
 	for _, l := range shape(mt.Elem()) {
 		mods[heapName("M", mk, "val"+l.Path)] = arrSort(arrSort(l.Sort))
 	}
@@ -1300,6 +1301,7 @@ func (s *Session) scanContractMods(c *Contract, fn *ssa.Function, sig *types.Sig
 				domN, cardN, valN, valS, _ := s.mapHeaps(st0, mt)
 				mods[domN] = arrSort(arrSort(SBool))
 				mods[cardN] = arrSort(SInt)
+				mods[mapVerName(mt)] = arrSort(SInt)
 				for k := range valN {
 					mods[valN[k]] = valS[k]
 				}
